@@ -110,23 +110,24 @@ theorem decodeElems_encode (ts : List Tag) (hnd : (ts.map Tag.json).Nodup) (rs :
 def InForceFor {R : Type} (mo : Module R) (e r : R) : Prop := e = mo.norm r ∨ mo.equiv e r = true
 
 theorem reuseBuild_rel {R : Type} (mo : Module R) (rs : List R) : ∀ old : List R,
-    List.Forall₂ (InForceFor mo) (reuseBuild mo.equiv mo.norm old rs) rs := by
+    List.Forall₂ (InForceFor mo) (reuseBuild mo.equiv mo.reusable mo.norm old rs) rs := by
   induction rs with
   | nil => intro old; simp [reuseBuild]
   | cons r rs ih =>
     intro old
     unfold reuseBuild
     cases hf : old.find? (fun o => mo.equiv o r) with
-    | none => exact List.Forall₂.cons (Or.inl rfl) (ih old)
+    | none => exact List.Forall₂.cons (Or.inl rfl) (ih _)
     | some o =>
       have := List.find?_some hf
       exact List.Forall₂.cons (Or.inr this) (ih _)
 
-theorem reuseBuild_never {R : Type} (norm : R → R) (rs : List R) (old : List R) :
-    reuseBuild (fun _ _ => false) norm old rs = rs.map norm := by
+theorem reuseBuild_never {R : Type} (reusable : R → R → Bool) (norm : R → R) (rs : List R) : ∀ old : List R,
+    reuseBuild (fun _ _ => false) reusable norm old rs = rs.map norm := by
   induction rs with
-  | nil => simp [reuseBuild]
+  | nil => intro old; simp [reuseBuild]
   | cons r rs ih =>
+    intro old
     have hf : old.find? (fun _ => false) = none := by
       induction old with
       | nil => rfl
@@ -144,7 +145,7 @@ theorem deliver_cases {B R : Type} (conv : B → Conv (WireList R)) (eqv : Optio
     (∃ v, conv src = .ok v ∧ eqv v s.1.last = true ∧ deliver conv eqv mo s src = (s, .ret .nil)) ∨
     (∃ v, conv src = .ok v ∧ eqv v s.1.last = false ∧
       deliver conv eqv mo s src =
-        (({ last := v }, { enforced := enforcedOf mo.valid mo.norm mo.equiv s.2.enforced v }), .ret .nil)) := by
+        (({ last := v }, { enforced := enforcedOf mo.valid mo.norm mo.equiv mo.reusable s.2.enforced v }), .ret .nil)) := by
   obtain ⟨h, m⟩ := s
   unfold deliver handle handleBody recovered loadUpd
   cases hc : conv src with
